@@ -46,6 +46,7 @@ impl Prop for C09 {
     let orig: String = original.clone().or_else(|| w.and_then(|w| outer.contents.get(w).cloned())).unwrap_or_default();
     let (pos, _) = positions(text);
     let ocv = cover(&outer.segs, text);
+    let mut kept_outer_name = false;
     let mut used_inner = false;
     let mut used_other = false;
     for columns in [true, false] {
@@ -120,6 +121,9 @@ impl Prop for C09 {
                   } else {
                     outer_name_if_matches(&oname, &content, io.line, *c)
                   };
+                  if want_name.is_some() && !(*c == io.col && io.name.is_some()) {
+                    kept_outer_name = true;
+                  }
                   if *nm != want_name {
                     return Err(format!(
                       "columns=true: byte {i} ({}:{}) of {text:?}: name {nm:?}, expected {want_name:?} (inner name, else the outer name only if it matches the original text, else none); got={g:?} mappings={ms:?}",
@@ -175,6 +179,7 @@ impl Prop for C09 {
         .class(used_inner, "byte resolved through a mapped inner chunk")
         .class(used_other, "byte resolved through fallback / pass-through")
         .class(*remove, "remove_original_source")
+        .class(kept_outer_name, "an outer name is kept because it is the text at the original position")
         .class(original.is_none(), "original source taken from outer sourcesContent")
         .class(inner.root.as_deref().is_some_and(|r| !r.is_empty()), "inner sourceRoot")
         .class(
